@@ -323,4 +323,6 @@ def run(ctx):
     from rules import families as _fam
     _fam.reader(ctx, "C07")
     _fam.mapping_list(ctx, "C07")
-
+    # the stream this property talks about is all-or-nothing: generate_dump succeeds only if its writer returned Ok (rules/c01.py rule_hard_streams)
+    from rules import c01 as _c01h
+    _c01h.rule_hard_streams(ctx, R="C07/hard-streams", only=('thread_list_stream::write', 'app_memory::write', 'memory_list_stream::write'))
